@@ -72,18 +72,17 @@ theorem C08Nts_client_response_total (A : AEAD) (st : NtsPool.Client) (b : Bytes
   | hang => rw [hd] at h1; exact h1.elim
 
 /-- Environment assumption of the reply path: whatever decodes as a cookie and opens under a
-    server key was issued by this project's NTS-KE/NTP server — a 124-byte cookie carrying a
-    16-bit algorithm and two 32-byte AES-SIV-CMAC-256 keys. (Unforgeability of the AEAD plus the
+    server key was issued by this project's NTS-KE/NTP server — it carries a 16-bit algorithm
+    and two 32-byte AES-SIV-CMAC-256 keys. (Unforgeability of the AEAD plus the
     behaviour of `core/server/ntske.go`; not a property of the bytes received.) -/
 def IssuedOnly (A : AEAD) : Prop :=
-  ∀ c0 ec key sc, ecDecode c0 = .ok ec → decryptCookie A ec key = .ok sc →
-    sc.x.length = 32 ∧ sc.y.length = 32 ∧ sc.num < 65536 ∧ 124 ≤ c0.length
+  ∀ ec key sc, decryptCookie A ec key = .ok sc → sc.x.length = 32 ∧ sc.y.length = 32 ∧ sc.num < 65536
 
 /-- **The listeners' NTS branch is total**: for every datagram, key table, current key and
     random stream, decode → first cookie → cookie decode → key lookup → decrypt → ProcessRequest →
     fresh cookies → NewResponsePacket → EncodePacket ends in a reply or in dropping the request;
-    a reply is at most `MaxPacketLen` bytes. (Lawful, Sized: the AEAD's laws.) -/
-theorem C08Nts_reply_total (A : AEAD) (hl : A.Lawful) (hs : A.Sized) (hi : IssuedOnly A)
+    a reply is at most `MaxPacketLen` bytes. (Lawful, Sized, OpenSized: the AEAD's laws.) -/
+theorem C08Nts_reply_total (A : AEAD) (hl : A.Lawful) (hs : A.Sized) (ho : A.OpenSized) (hi : IssuedOnly A)
     (keys : Nat → Option Bytes) (curId : Nat) (curKey b hdr rnd : Bytes) (hh : hdr.length = ntpPacketLen) :
     (serverReply A keys curId curKey b hdr rnd).Safe ∧
       ∀ r, serverReply A keys curId curKey b hdr rnd = .ok r → r.length ≤ maxPacketLen := by
@@ -139,10 +138,10 @@ theorem C08Nts_reply_total (A : AEAD) (hl : A.Lawful) (hs : A.Sized) (hi : Issue
       simp [serverReply, serverReplyG, hd, hc, he, hk, hsc, hr, bind, Res.bind]
     rw [this]; simp
   | ok cs =>
-  obtain ⟨hx, hy, hnum, hlen⟩ := hi c0 ec key sc he hsc
+  obtain ⟨hx, hy, hnum⟩ := hi ec key sc hsc
   by_cases hcur : keyOk curKey = true
-  · obtain ⟨r, fresh, hok, hrl, _⟩ := serverReply_ok A hl hs keys curId curKey b hdr rnd d c0 ec sc key cs hh hd hc he hk hsc hr
-      hx hy hnum hcur hlen
+  · obtain ⟨r, fresh, hok, hrl, _⟩ := serverReply_ok A hl hs ho keys curId curKey b hdr rnd d c0 ec sc key cs hh hd hc he hk hsc hr
+      hx hy hnum hcur
     rw [hok]
     exact ⟨by simp, fun r' h => by injection h with h; rw [← h]; exact hrl⟩
   · have hemp := freshCookies_nokey A sc curKey curId (by simpa using hcur) (cs.length + d.nph) rnd
